@@ -1,5 +1,6 @@
 import AlgopyVerif.Proofs.Interp
 import AlgopyVerif.Proofs.GammaUnivariate
+import AlgopyVerif.Proofs.GammaGeneral
 /-!
 # C15 — exact-interpolation coefficients reconstruct mixed partial derivatives
 
@@ -11,10 +12,12 @@ import AlgopyVerif.Proofs.GammaUnivariate
   built in the thorough tier).
 * `Gamma_identity_one_variable`: for **one variable the identity holds for every degree** `d ≥ 1` (no bound), by proof:
   `Γ = γ(d,d) = d^{-d}` (`Gamma_one_variable_value`) since the `d`-th forward difference of `x^d` is `d!`.
-  The statement for unbounded `(N, d)` with `N ≥ 2` is not proved
-  (`Gamma_identity` for all `N, d` remains open: partial) — the property's own quantifier asks
-  for exhaustive exploration up to a bound in exact rational arithmetic, which this delivers
-  with the kernel as the checker.
+* `Gamma_identity_every_N_d`: **the identity for every `N ≥ 1` and every `d ≥ 1`, by proof** (no bound; the kernel-evaluated
+  table entries stay as independent checks of the same statement).
+  The property's own quantifier asks for exhaustive exploration up to a bound in exact rational arithmetic; the table
+  delivers that with the kernel as the checker, the general theorem removes the bound.
+  Not proved (partial): that the float implementation stays close to the exact `Γ` for large `d` (cancellation; the
+  correspondence run compares it with the exact model for the table).
 -/
 open AV.Interp
 namespace AV.C15
@@ -25,6 +28,22 @@ theorem multi_indices_complete (N d : Nat) (i : List Nat) :
 
 /-- … exactly once -/
 theorem multi_indices_nodup (N d : Nat) : (multiIndices N d).Nodup := nodup_multiIndices N d
+
+/-- **EVERY number of variables `N ≥ 1` and EVERY degree `d ≥ 1`** (no bound): the identity
+`Σ_j Γ[i,j]·ray_j^α = δ(i,α)` holds on the model of `exact_interpolation.py` (`gamma`, `multiIndices`, rays = the multi-indices)
+for all multi-indices `i, α` of degree `d`.  Proof (`Proofs/GammaGeneral.lean`): the lattice `{j : |j| = d}` interpolates every
+monomial of degree `d` on the hyperplane `|z| = d` (`lattice_interpolation`: powers in the falling-factorial basis by Stirling
+numbers, `C(z,j)·(j)_m = (z)_m·C(z−m, j−m)` and the Chu–Vandermonde identity with rational upper arguments, by induction over the
+variables), which collapses `γ` to the mixed forward difference `Σ_{k≤i} (−1)^{|i−k|} C(i,k) k^α / i! = δ(i,α)`. -/
+theorem Gamma_identity_every_N_d (N d : Nat) (hN : 0 < N) (hd : 0 < d) : checkIdentity N d = true := by
+  obtain ⟨M, rfl⟩ := Nat.exists_eq_succ_of_ne_zero hN.ne'
+  exact checkIdentity_all M d hd
+
+/-- entry by entry: `Σ_j γ(i,j) · j^α = δ(i,α)` -/
+theorem Gamma_identity_entry (N d : Nat) (hd : 0 < d) (i a : List Nat) (hi : i ∈ multiIndices (N + 1) d)
+    (ha : a ∈ multiIndices (N + 1) d) :
+    ((multiIndices (N + 1) d).map fun j => gamma i j * miPow j a).sum = if i = a then 1 else 0 :=
+  gamma_sum N d hd i a hi ha
 
 /-- **one variable, EVERY degree** (no bound): the identity `Σ_j Γ[i,j]·ray_j^α = δ(i,α)` holds on the model for `N = 1` and all
 `d ≥ 1` — there `Γ = γ(d,d) = d^{-d}`, because the `d`-th forward difference of `x^d` is `d!` -/
